@@ -683,6 +683,12 @@ func runTypeRel(c *Ctx, r *Reporter) {
 					safe = true
 				}
 			}
+			// … also where the comparison of the names is one operand of a case condition (`case !(kindOK && t.Name == c.Name):`)
+			for _, f := range impliedConds(b) {
+				if nb, ok := f.Cond.(*ssa.BinOp); ok && isNameLoad(nb.X) && isNameLoad(nb.Y) && (nb.Op == token.EQL && f.Truth || nb.Op == token.NEQ && !f.Truth) {
+					safe = true
+				}
+			}
 			bad := ""
 			if !safe {
 				hdr := loopHeaderOf(b)
